@@ -440,3 +440,117 @@ Example c06_nonvacuous_login :
   login_handler 100 true (lq POST (Some (good_token 2 bAny)) None None None) = LRefuse 401 /\
   login_handler 100 true (lq OTHER None None (bob true) None) = LRefuse 405.
 Proof. vm_compute. repeat split; reflexivity. Qed.
+
+(* ---- The gate over the life of a daemon (Model/GateHist.v).  The verdict on a request does not depend on
+   what the daemon has answered before: after ANY history of requests h - genuine credentials of the same or
+   of other users, look-alikes of them, admitted or refused, under any masks, clocks, deny lists - the verdict
+   on r is the verdict a daemon that has just started gives. *)
+From KM Require Import Model.GateHist Proofs.GateHist.
+
+Theorem c06_verdict_history_independent : forall h r, verdict_after h r = verdict_after [] r.
+Proof. exact verdict_history_independent. Qed.
+Print Assumptions c06_verdict_history_independent.
+
+(* ... every request of a history is judged as if it were the first one the daemon sees ... *)
+Theorem c06_history_pointwise : forall h, snd (gate_run tt h) = map (verdict_after []) h.
+Proof. exact run_is_pointwise. Qed.
+Print Assumptions c06_history_pointwise.
+
+(* ... so whoever is let in, after whatever came before, is established by the credentials of THIS request:
+   c06_gate_sound for a daemon of any age. *)
+Theorem c06_gate_sound_after_history : forall h r u l iat,
+  verdict_after h r = Admit u l iat ->
+  proves (h_now r) (h_deny r) (h_q r) u l /\ hasb l (h_mask r) = true /\
+  (q_meth (h_q r) <> GET -> origin_ok (h_q r)).
+Proof. exact gate_sound_after_history. Qed.
+Print Assumptions c06_gate_sound_after_history.
+
+(* Sharpness: a gate that remembers the certificates it has matched to a keymaster signer under ANY key of the
+   leaf that does not determine the issuer (subject, subject + serial number, public key, key id ...) and looks
+   into that memory before it examines the issuer of the presented chain ([memo_step], not the code): the
+   look-alike from another CA is refused by a fresh daemon, admitted as alice after one request of the genuine
+   alice, while the gate of the tree refuses it there too and nothing in the request proves alice. *)
+Theorem c06_verdict_memo_refuted : forall kf : tlsx -> N,
+  kf genuine = kf lookalike ->
+  memo_verdict_after kf [] (presenting lookalike) = Refuse 401 /\
+  memo_verdict_after kf [presenting genuine] (presenting lookalike) = Admit 1 bKMX509 5%Z /\
+  verdict_after [presenting genuine] (presenting lookalike) = Refuse 401 /\
+  forall l, ~ proves 100%Z [] (h_q (presenting lookalike)) 1 l.
+Proof. exact memo_refuted. Qed.
+Print Assumptions c06_verdict_memo_refuted.
+(* ------------------------------------------------------------------------------------------
+   Fifth wave (C06-I): the issuers of client certificates next to the gate that reads them. *)
+From KM Require Import Model.AuthGateRole Proofs.AuthGateRole.
+
+(* A certificate that carries the address delegation extension is NEVER a plain keymaster certificate,
+   whatever key it certifies and whatever signers the server has loaded.  For every certificate [m] that an
+   endpoint of the tree hands out ([issue]: /v1/getRoleRequestingCert, /v1/refreshRoleRequestingCert, /certgen/,
+   the AWS role endpoint; every accepted key type RSA / P-256 / P-384 / P-521 / Ed25519; server with or without
+   an Ed25519 CA), if it carries the extension then a request that presents it with the chain crypto/x509 really
+   verifies against the service port's client-CA pool ([present]) - from any peer, with any auth_cookie or
+   basic-auth header besides, under any mask, clock, deny list - is let in either on the strength of a valid
+   session token or a verified password it carries as well, or as the certificate's common name at EXACTLY the
+   IP-certificate level, under a mask that asks for IP certificates, with the TCP peer inside a block the
+   certificate carries and the name a configured automation identity.  Never the KeymasterX509 bit. *)
+Theorem c06_ip_extension_never_plain : forall e k has_ed cn key nb ext m p now lim deny required q u l iat,
+  issue e k has_ed cn key nb ext = Some m ->
+  m_ext m <> None ->
+  q_tls q = Some (present has_ed m p) ->
+  check_auth now lim deny required q = Admit u l iat ->
+  (exists t, k_cookie (q_cred q) = Some t /\ valid_cookie now t /\ u = t_sub t /\ l = t_level t) \/
+  (exists b, k_cookie (q_cred q) = None /\ k_basic (q_cred q) = Some b /\ b_ok b = true /\ u = b_user b /\ l = bPassword) \/
+  (u = cn /\ l = bIPCert /\ hasb required bIPCert = true /\ peer_inside (present has_ed m p) /\ pr_automation p = true).
+Proof. exact ip_extension_never_plain. Qed.
+Print Assumptions c06_ip_extension_never_plain.
+
+(* the same for a request whose only credential is the certificate: outside its blocks, or under a mask
+   without the IP-certificate bit (admin routes, /v1/getRoleRequestingCert, the web UI), it establishes nothing *)
+Theorem c06_ip_extension_cert_alone : forall e k has_ed cn key nb ext m p now lim deny required meth org u l iat,
+  issue e k has_ed cn key nb ext = Some m ->
+  m_ext m <> None ->
+  check_auth now lim deny required
+    {| q_meth := meth; q_origin := org; q_tls := Some (present has_ed m p); q_cred := no_cred |} = Admit u l iat ->
+  u = cn /\ l = bIPCert /\ hasb l bKMX509 = false /\ hasb required bIPCert = true /\ peer_inside (present has_ed m p).
+Proof. exact ip_extension_cert_alone. Qed.
+Print Assumptions c06_ip_extension_cert_alone.
+
+(* the invariant of the issuers the two statements rest on *)
+Theorem c06_extension_only_under_role_ca : forall e k has_ed cn key nb ext m,
+  issue e k has_ed cn key nb ext = Some m -> m_ext m <> None -> m_issuer m = IRoleCA.
+Proof. exact issue_ext_role. Qed.
+Print Assumptions c06_extension_only_under_role_ca.
+
+(* the boolean the case file evaluates on an observed admission level is the conclusion of c06_ip_extension_cert_alone *)
+Theorem c06_obs_role_is_spec : forall c l, role_conclusion c l = true <-> (l = bIPCert /\ peer_inside c).
+Proof. exact role_conclusion_iff. Qed.
+Print Assumptions c06_obs_role_is_spec.
+
+(* sharpness: with the issuer of a role certificate chosen by the type of the certified key
+   ([mint_role_by_key_type], not the code: Ed25519 keys under the Ed25519 CA of a server that has one) the gate of
+   the tree admits an Ed25519 role certificate for 10.0.0.0/8 presented from 192.168.1.1 with its real verified
+   chain at the KeymasterX509 level under a mask without the IP-certificate bit; with the issuer of the tree the
+   same request is refused *)
+Theorem c06_role_issuer_by_key_type_refuted :
+  exists m p,
+    issue_gen mint_role_by_key_type EGetRole KEd25519 true 4 9 50%Z (IPExt.ext_of [IPExt.mk 10 0 0 0 8]) = Some m /\
+    m_ext m <> None /\ peer_insideb (present true m p) = false /\
+    check_auth 100 true [] bKMX509
+      {| q_meth := POST; q_origin := NoOrigin; q_tls := Some (present true m p); q_cred := no_cred |} = Admit 4 bKMX509 50%Z /\
+    (forall m', issue EGetRole KEd25519 true 4 9 50%Z (IPExt.ext_of [IPExt.mk 10 0 0 0 8]) = Some m' ->
+       check_auth 100 true [] bKMX509
+         {| q_meth := POST; q_origin := NoOrigin; q_tls := Some (present true m' p); q_cred := no_cred |} = Refuse 401).
+Proof. exact role_issuer_by_key_type_refuted. Qed.
+Print Assumptions c06_role_issuer_by_key_type_refuted.
+
+(* non-vacuity: an Ed25519 role certificate of a server with an Ed25519 CA, presented from inside its block to the
+   refresh mask: admitted at the IP-certificate level; from outside, and from inside under the mask of the
+   admin routes: refused *)
+Example c06_nonvacuous_role :
+  let pr peer := {| pr_peer := peer; pr_ip_error := false; pr_auto_error := false; pr_automation := true; pr_revoked := false |} in
+  let rq m peer := {| q_meth := POST; q_origin := NoOrigin; q_tls := Some (present true m (pr peer)); q_cred := no_cred |} in
+  exists m, issue EGetRole KEd25519 true 4 9 50%Z (IPExt.ext_of [IPExt.mk 10 0 0 0 8]) = Some m /\
+    check_auth 100 true [] bIPCert (rq m (IPExt.V4 10 1 2 3)) = Admit 4 bIPCert 100%Z /\
+    check_auth 100 true [] bIPCert (rq m (IPExt.V4 192 168 1 1)) = Refuse 403 /\
+    check_auth 100 true [] (N.lor bU2F bKMX509) (rq m (IPExt.V4 10 1 2 3)) = Refuse 401 /\
+    check_auth 100 true [] bAny (rq m (IPExt.V4 10 1 2 3)) = Admit 4 bIPCert 100%Z.
+Proof. eexists. split; [reflexivity|]. vm_compute. repeat split; reflexivity. Qed.
